@@ -22,16 +22,22 @@ mod mem {
     }
 }
 
-/// Write tracing: the arena is made read-only; every store of the code under test faults, the SIGSEGV handler
-/// records the faulting address, re-enables writing for exactly one instruction (trap flag) and the SIGTRAP
-/// handler protects the arena again.  Gives the *set of addresses written*, independent of the values written
-/// (a store that rewrites the old value outside the destination range is still a write outside the range).
+/// Access tracing: the arena is made inaccessible (PROT_NONE); every load and every store of the code under test
+/// faults, the SIGSEGV handler records the faulting address and whether it was a store (page-fault error code, bit 1),
+/// re-enables access for exactly one instruction (trap flag) and the SIGTRAP handler protects the arena again.
+/// Gives the *set of addresses written*, independent of the values written (a store that rewrites the old value
+/// outside the destination range is still a write outside the range), and the *start address of every load*
+/// (its width is not known here; loads that start inside an operand and run past its end are what the guard-page
+/// placements of the `!k` setup catch).
 mod wtrace {
+    /// tag bit of a LOG entry: the access was a store
+    pub const WR: usize = 1 << 63;
+    const REG_ERR_OFF: usize = 40 + 19 * 8; // ucontext_t.uc_mcontext.gregs[REG_ERR]
     use core::sync::atomic::{AtomicUsize, Ordering};
     pub static LO: AtomicUsize = AtomicUsize::new(0);
     pub static LEN: AtomicUsize = AtomicUsize::new(0);
     pub static COUNT: AtomicUsize = AtomicUsize::new(0);
-    pub const CAP: usize = 1 << 16;
+    pub const CAP: usize = 1 << 17;
     pub static mut LOG: [usize; CAP] = [0; CAP];
     #[repr(C)]
     struct SigAction {
@@ -66,9 +72,10 @@ mod wtrace {
             sigaction(11, &dfl, core::ptr::null_mut());
             return;
         }
+        let is_write = *(ctx.add(REG_ERR_OFF) as *const u64) & 2 != 0;
         let c = COUNT.fetch_add(1, Ordering::Relaxed);
         if c < CAP {
-            LOG[c] = addr;
+            LOG[c] = if is_write { addr | WR } else { addr };
         }
         mprotect(lo as *mut u8, len, 3);
         let efl = ctx.add(REG_EFL_OFF) as *mut u64;
@@ -78,7 +85,7 @@ mod wtrace {
         let lo = LO.load(Ordering::Relaxed);
         let len = LEN.load(Ordering::Relaxed);
         if len != 0 {
-            mprotect(lo as *mut u8, len, 1);
+            mprotect(lo as *mut u8, len, 0);
         }
         let efl = ctx.add(REG_EFL_OFF) as *mut u64;
         *efl &= !0x100u64;
@@ -93,7 +100,7 @@ mod wtrace {
         COUNT.store(0, Ordering::Relaxed);
         LO.store(lo, Ordering::Relaxed);
         LEN.store(len, Ordering::Relaxed);
-        mprotect(lo as *mut u8, len, 1);
+        mprotect(lo as *mut u8, len, 0);
     }
     pub unsafe fn disarm() -> usize {
         let lo = LO.load(Ordering::Relaxed);
@@ -101,6 +108,73 @@ mod wtrace {
         LEN.store(0, Ordering::Relaxed);
         mprotect(lo as *mut u8, len, 3);
         COUNT.load(Ordering::Relaxed)
+    }
+}
+
+/// Inaccessible pages inside the arena (`!k` setup tokens): PROT_NONE while the function under test runs.  The
+/// SIGSEGV handler records the first access to one of them (address, load or store), makes that page accessible
+/// and returns, so the faulting instruction is re-executed and the call completes; a fault anywhere else is a
+/// genuine wild access and kills the process the normal way.
+mod guard {
+    use core::sync::atomic::{AtomicUsize, Ordering};
+    pub const MAXH: usize = 8;
+    pub static NH: AtomicUsize = AtomicUsize::new(0);
+    pub static mut HOLES: [usize; MAXH] = [0; MAXH];
+    pub static NFAULT: AtomicUsize = AtomicUsize::new(0);
+    pub static FIRST: AtomicUsize = AtomicUsize::new(0);
+    pub static FIRST_W: AtomicUsize = AtomicUsize::new(0);
+    extern "C" {
+        fn mprotect(addr: *mut u8, len: usize, prot: i32) -> i32;
+        fn sigaction(sig: i32, act: *const KSigAction, old: *mut KSigAction) -> i32;
+    }
+    #[repr(C)]
+    struct KSigAction {
+        handler: usize,
+        mask: [u64; 16],
+        flags: i32,
+        _pad: i32,
+        restorer: usize,
+    }
+    const SA_SIGINFO: i32 = 4;
+    const SA_NODEFER: i32 = 0x40000000;
+    const REG_ERR_OFF: usize = 40 + 19 * 8; // ucontext_t.uc_mcontext.gregs[REG_ERR]
+    unsafe extern "C" fn on_segv(_sig: i32, info: *mut u8, ctx: *mut u8) {
+        let addr = *(info.add(16) as *const usize);
+        let nh = NH.load(Ordering::Relaxed);
+        for k in 0..nh {
+            let lo = HOLES[k];
+            if addr >= lo && addr < lo + 4096 {
+                if NFAULT.fetch_add(1, Ordering::Relaxed) == 0 {
+                    FIRST.store(addr, Ordering::Relaxed);
+                    FIRST_W.store((*(ctx.add(REG_ERR_OFF) as *const u64) & 2 != 0) as usize, Ordering::Relaxed);
+                }
+                mprotect(lo as *mut u8, 4096, 3);
+                return;
+            }
+        }
+        let dfl = KSigAction { handler: 0, mask: [0; 16], flags: 0, _pad: 0, restorer: 0 };
+        sigaction(11, &dfl, core::ptr::null_mut());
+    }
+    pub unsafe fn install() {
+        let a = KSigAction { handler: on_segv as usize, mask: [0; 16], flags: SA_SIGINFO | SA_NODEFER, _pad: 0, restorer: 0 };
+        sigaction(11, &a, core::ptr::null_mut());
+    }
+    pub unsafe fn arm(pages: &[usize]) {
+        NFAULT.store(0, Ordering::Relaxed);
+        for (k, p) in pages.iter().enumerate() {
+            HOLES[k] = *p;
+            mprotect(*p as *mut u8, 4096, 0);
+        }
+        NH.store(pages.len(), Ordering::Relaxed);
+    }
+    /// every page accessible again; returns (number of faults, first faulting address, it was a store)
+    pub unsafe fn disarm() -> (usize, usize, bool) {
+        let nh = NH.load(Ordering::Relaxed);
+        NH.store(0, Ordering::Relaxed);
+        for k in 0..nh {
+            mprotect(HOLES[k] as *mut u8, 4096, 3);
+        }
+        (NFAULT.load(Ordering::Relaxed), FIRST.load(Ordering::Relaxed), FIRST_W.load(Ordering::Relaxed) != 0)
     }
 }
 
@@ -183,16 +257,45 @@ fn run(ar: &mut Arena, line: &str) -> Option<String> {
     if size > MAX_SIZE || a.checked_add(n)? > size {
         return None;
     }
-    let mut pokes = Vec::new();
+    // setup tokens, applied in order: @off=val poke, ~to:from:len copy (by the harness), !k inaccessible page k
+    enum Setup {
+        Poke(usize, u8),
+        Copy(usize, usize, usize),
+    }
+    let mut setups = Vec::new();
+    let mut holes: Vec<usize> = Vec::new();
     for t in &w[6..] {
-        let t = t.strip_prefix('@')?;
-        let (o, v) = t.split_once('=')?;
-        let o: usize = o.parse().ok()?;
-        let v: u32 = v.parse().ok()?;
-        if o >= size || v > 255 {
+        if let Some(t) = t.strip_prefix('@') {
+            let (o, v) = t.split_once('=')?;
+            let o: usize = o.parse().ok()?;
+            let v: u32 = v.parse().ok()?;
+            if o >= size || v > 255 {
+                return None;
+            }
+            setups.push(Setup::Poke(o, v as u8));
+        } else if let Some(t) = t.strip_prefix('~') {
+            let mut it = t.split(':');
+            let to: usize = it.next()?.parse().ok()?;
+            let from: usize = it.next()?.parse().ok()?;
+            let len: usize = it.next()?.parse().ok()?;
+            if it.next().is_some() || to.checked_add(len)? > size || from.checked_add(len)? > size {
+                return None;
+            }
+            setups.push(Setup::Copy(to, from, len));
+        } else if let Some(t) = t.strip_prefix('!') {
+            let k: usize = t.parse().ok()?;
+            if k.checked_add(1)?.checked_mul(4096)? > size || holes.len() >= guard::MAXH {
+                return None;
+            }
+            holes.push(k);
+        } else {
             return None;
         }
-        pokes.push((o, v as u8));
+    }
+    // no operand may contain a byte of an inaccessible page
+    let clear = |a: usize, n: usize| holes.iter().all(|k| n == 0 || a + n <= 4096 * k || 4096 * (k + 1) <= a);
+    if !clear(a, n) {
+        return None;
     }
     if op == "set" {
         if b < i32::MIN as i64 || b > i32::MAX as i64 {
@@ -205,74 +308,108 @@ fn run(ar: &mut Arena, line: &str) -> Option<String> {
         if !matches!(op, "cpy" | "mov" | "fwd" | "bwd" | "cmp" | "bcm") {
             return None;
         }
+        if !clear(b as usize, n) {
+            return None;
+        }
     }
     let base = ar.prepare(size, seed);
     debug_assert_eq!(pattern(seed, 300), ((((300 % 251) as u64) * 7 + seed.wrapping_mul(13) + 3) % 256) as u8);
-    for (o, v) in pokes {
-        unsafe { *base.add(o) = v };
+    for st in setups {
+        match st {
+            Setup::Poke(o, v) => unsafe { *base.add(o) = v },
+            // the harness's own copy (std's, i.e. libc's memmove — not the code under test)
+            Setup::Copy(to, from, len) => unsafe { std::ptr::copy(base.add(from), base.add(to), len) },
+        }
     }
     let mut out;
     let tracing = TRACE.load(core::sync::atomic::Ordering::Relaxed);
     unsafe {
         let pa = base.add(a);
+        let pb = base.wrapping_add(b as usize); // only meaningful (and only used) for the two-operand ops
         if tracing {
-            // whole pages covering margin + arena + margin
+            // whole pages covering margin + arena + margin (the `!k` pages are part of it: in this mode every
+            // access is recorded anyway and judged against the operand ranges)
             let lo = (base as usize) - MARGIN;
             let len = (size + 2 * MARGIN + 4095) / 4096 * 4096;
             wtrace::arm(lo, len.min(ar.cap));
+        } else if !holes.is_empty() {
+            let pages: Vec<usize> = holes.iter().map(|k| base as usize + 4096 * k).collect();
+            guard::arm(&pages);
         }
-        match op {
-            "set" => {
-                let r = mem::memset(pa, b as i32, n);
-                out = format!("h={} ret={}", ar.hash(size), (r as usize).wrapping_sub(base as usize));
-            }
-            "cpy" => {
-                let r = mem::memcpy(pa, base.add(b as usize), n);
-                out = format!("h={} ret={}", ar.hash(size), (r as usize).wrapping_sub(base as usize));
-            }
-            "mov" => {
-                let r = mem::memmove(pa, base.add(b as usize), n);
-                out = format!("h={} ret={}", ar.hash(size), (r as usize).wrapping_sub(base as usize));
-            }
+        // the call, and nothing else, between arm and disarm: the harness itself must not touch the arena here
+        enum R {
+            Ptr(*mut u8),
+            Unit,
+            Val(i32),
+        }
+        let r = match op {
+            "set" => R::Ptr(mem::memset(pa, b as i32, n)),
+            "cpy" => R::Ptr(mem::memcpy(pa, pb, n)),
+            "mov" => R::Ptr(mem::memmove(pa, pb, n)),
             "fwd" => {
-                mem::verif::fwd(pa, base.add(b as usize), n);
-                out = format!("h={} ret=-", ar.hash(size));
+                mem::verif::fwd(pa, pb, n);
+                R::Unit
             }
             "bwd" => {
-                mem::verif::bwd(pa, base.add(b as usize), n);
-                out = format!("h={} ret=-", ar.hash(size));
+                mem::verif::bwd(pa, pb, n);
+                R::Unit
             }
-            "cmp" => {
-                let v = mem::memcmp(pa, base.add(b as usize), n);
-                out = format!("h={} val={}", ar.hash(size), v);
-            }
-            "bcm" => {
-                let v = mem::bcmp(pa, base.add(b as usize), n);
-                out = format!("h={} val={}", ar.hash(size), v);
-            }
-            _ => {
-                if tracing {
-                    wtrace::disarm();
-                }
-                return None;
-            }
+            "cmp" => R::Val(mem::memcmp(pa, pb, n)),
+            _ => R::Val(mem::bcmp(pa, pb, n)),
+        };
+        let cnt = if tracing { wtrace::disarm() } else { 0 };
+        let (nfault, first_fault, fault_w) = if !tracing && !holes.is_empty() { guard::disarm() } else { (0, 0, false) };
+        out = match r {
+            R::Ptr(p) => format!("h={} ret={}", ar.hash(size), (p as usize).wrapping_sub(base as usize)),
+            R::Unit => format!("h={} ret=-", ar.hash(size)),
+            R::Val(v) => format!("h={} val={}", ar.hash(size), v),
+        };
+        if nfault != 0 {
+            out.push_str(&format!(" fault={}@{}", if fault_w { "wr" } else { "rd" }, first_fault.wrapping_sub(base as usize) as i64));
         }
         if tracing {
-            let cnt = wtrace::disarm();
             let writes_allowed = !matches!(op, "cmp" | "bcm");
             let (dlo, dhi) = (pa as usize, pa as usize + n);
+            // where a load may START: inside the source operand (copies), inside either operand (compares), nowhere (memset)
+            let (r1, r2): ((usize, usize), (usize, usize)) = match op {
+                "set" => ((0, 0), (0, 0)),
+                "cmp" | "bcm" => ((dlo, dhi), (pb as usize, pb as usize + n)),
+                _ => ((pb as usize, pb as usize + n), (0, 0)),
+            };
+            let mut stores = 0usize;
             let mut outside = 0usize;
             let mut first: i64 = 0;
+            let mut loads = 0usize;
+            let mut lout = 0usize;
+            let mut lfirst: i64 = 0;
             for k in 0..cnt.min(wtrace::CAP) {
-                let ad = wtrace::LOG[k];
-                if !writes_allowed || ad < dlo || ad >= dhi {
-                    if outside == 0 {
-                        first = ad as i64 - dlo as i64;
+                let e = wtrace::LOG[k];
+                let ad = e & !wtrace::WR;
+                if e & wtrace::WR != 0 {
+                    stores += 1;
+                    if !writes_allowed || ad < dlo || ad >= dhi {
+                        if outside == 0 {
+                            first = ad as i64 - dlo as i64;
+                        }
+                        outside += 1;
                     }
-                    outside += 1;
+                } else {
+                    loads += 1;
+                    if !((ad >= r1.0 && ad < r1.1) || (ad >= r2.0 && ad < r2.1)) {
+                        if lout == 0 {
+                            lfirst = ad as i64 - base as i64;
+                        }
+                        lout += 1;
+                    }
                 }
             }
-            out.push_str(&format!(" stores={} outside={} first_outside_rel_dest={}", cnt, outside, first));
+            if cnt > wtrace::CAP {
+                out.push_str(" trace-truncated");
+            }
+            out.push_str(&format!(
+                " stores={} outside={} first_outside_rel_dest={} loads={} loads_outside={} first_load_outside_at={}",
+                stores, outside, first, loads, lout, lfirst
+            ));
         }
     }
     if ar.wild(size) {
@@ -289,6 +426,8 @@ fn main() {
     if std::env::args().any(|a| a == "--trace") {
         TRACE.store(true, core::sync::atomic::Ordering::Relaxed);
         unsafe { wtrace::install() };
+    } else {
+        unsafe { guard::install() };
     }
     for line in stdin.lock().lines() {
         let line = line.unwrap();
